@@ -603,6 +603,7 @@ def coverage(res, bounds, extra=None):
         'traces_validated_against_impl': res.transitions,
         'samples': [[list(map(str, l)) for l in h] for h in res.samples] or [['setup']],
         'exhaustive': not res.capped,
+        'level_abandoned_over_time_budget': getattr(res, 'partial_level', None),
         'fixpoint_reached': res.fixpoint,
         'max_depth': res.max_depth,
         'level_sizes': res.level_sizes,
